@@ -98,7 +98,11 @@ impl Function for Snakecase {
                     let boundary = into_boundary(
                         value
                             .try_bytes_utf8_lossy()
-                            .expect("cant convert to string")
+                            .map_err(|_| -> Box<dyn DiagnosticMessage> {
+                                Box::new(ExpressionError::from(
+                                    "expected static string for excluded_boundaries",
+                                ))
+                            })?
                             .as_ref(),
                     )?;
                     boundaries.push(boundary);
